@@ -756,14 +756,23 @@ Definition k2_state (v : value) : globals :=
 
 (* K2: a well-formed state of a completed run whose continuation file cannot be written *)
 Theorem unrepresentable_value_refuted :
-  forall v, In v [VDec "1.50"; VSlot "B" (Some 1); VLazy "B" 1; VRef "Zed" 5] ->
+  forall v, In v [VSlot "B" (Some 1); VLazy "B" 1; VRef "Zed" 5] ->
             wf (k2_state v) = true /\ dump_check (k2_state v) = representer_error.
 Proof.
   intros v H. cbn [In] in H.
-  destruct H as [<-|[<-|[<-|[<-|[]]]]]; split; vm_compute; reflexivity.
+  destruct H as [<-|[<-|[<-|[]]]]; split; vm_compute; reflexivity.
 Qed.
 
 Theorem dump_total_refuted : ~ (forall g, wf g = true -> is_ok (dump_check g) = true).
 Proof.
-  intros H. specialize (H (k2_state (VDec "1.50")) eq_refl). vm_compute in H. discriminate.
+  intros H. specialize (H (k2_state (VSlot "B" (Some 1))) eq_refl). vm_compute in H. discriminate.
+Qed.
+
+(* repaired (Decimal representer): the former Decimal witness of K2 is written and restored *)
+Theorem decimal_value_restored :
+  forall txt, snapshot_ok (k2_state (VDec txt)) = true /\
+              dump_check (k2_state (VDec txt)) = Ok (save (k2_state (VDec txt))).
+Proof.
+  intros txt. assert (S : snapshot_ok (k2_state (VDec txt)) = true) by reflexivity.
+  split; [exact S|apply dump_total, S].
 Qed.
